@@ -279,7 +279,19 @@ var fuzzContentKeys = []string{"membership", "third_party_invite", "join_authori
 func (r *Rng) mutateEvent(m map[string]interface{}) {
 	n := 1 + r.Intn(3)
 	for i := 0; i < n; i++ {
-		switch r.Intn(5) {
+		switch r.Intn(6) {
+		case 5:
+			// a special event type, with the state key toggled
+			m["type"] = Pick(r, []string{"m.room.create", "m.room.member", "m.room.power_levels", "m.room.join_rules", "m.room.third_party_invite", "m.room.aliases", "m.room.redaction"})
+			switch r.Intn(3) {
+			case 0:
+				delete(m, "state_key")
+			case 1:
+				m["state_key"] = Pick(r, []string{"", "x", "@a:b", "@creator:hs1"})
+			}
+			if r.Chance(40) {
+				delete(m, Pick(r, []string{"room_id", "content", "sender", "prev_events", "auth_events"}))
+			}
 		case 0, 1:
 			m[Pick(r, fuzzTopKeys)] = r.weirdValue()
 		case 2:
